@@ -286,7 +286,8 @@ def build(case):
     extra = case.get("extra") or [0, 0]
     first_event = [None]
     for ci, items in enumerate(case["clips"]):
-        clip = data.Clip(uuid=U("clip%d" % ci), recording=REC, start_time=float(10 * ci), end_time=float(10 * ci + 10))
+        # clips of unequal length (10 s, 5 s, 7.5 s, ...): every clip counts once in a mean of clip scores, whatever its duration
+        clip = data.Clip(uuid=U("clip%d" % ci), recording=REC, start_time=float(10 * ci), end_time=float(10 * ci) + [10.0, 5.0, 7.5][ci % 3])
         if clip_level:
             (truth, vec), = items
             cas.append(data.ClipAnnotation(uuid=U("ca%d" % ci), clip=clip, tags=[tagobj(t, V) for t in truth]))
